@@ -976,7 +976,13 @@ THEOREMS = ["C07_parse_print_tag_partial", "C07_parse_print_opt_tag_partial", "C
             "C07_refuted_marker_before_first_component", "C07_refuted_second_extension_marker_overwrites_first",
             "C07_refuted_with_components_dropped", "C07_refuted_type_reference_read_as_keyword",
             "C07_refuted_assignment_named_end_truncates_module", "C07_refuted_size_0_max_extensible_rejected",
-            "C07_refuted_bit_literal_right_aligned_length_lost", "C07_refuted_module_name_suffix_stripped"]
+            "C07_refuted_bit_literal_right_aligned_length_lost", "C07_refuted_module_name_suffix_stripped",
+            "C07_parse_print_enumerated", "C07_parse_print_literal_partial", "C07_parse_print_value_reference",
+            "C07_parse_print_oid", "C07_parse_print_opt_oid", "C07_parse_print_imports", "C07_parse_print_type",
+            "C07_parse_print", "C07_parse_print_module_items",
+            "C07_refuted_string_literal_rebuilt_from_tokens", "C07_refuted_empty_string_literal_rejected",
+            "C07_refuted_string_literal_quote_escape_rejected", "C07_refuted_hex_literal_odd_digits_padded_in_front",
+            "C07_refuted_assignment_named_size_after_string_type_rejected"]
 
 
 class C07(Spec):
